@@ -271,8 +271,8 @@ def run():
     if model_ok:
         try:
             B = 50
-            exprs = ["map (lex_literal_u_view %s %s %s) [%s]" % (units_expr, tbl_expr, rows_expr, "; ".join(coq_codes(l[0]) for l in lits[i:i + B])) for i in range(0, len(lits), B)]
-            model_lit = [x for v in coq_eval(HEADER, exprs) for x in v]
+            exprs = ["map (lex_literal_checked_view %s %s %s) [%s]" % (units_expr, tbl_expr, rows_expr, "; ".join(coq_codes(l[0]) for l in lits[i:i + B])) for i in range(0, len(lits), B)]
+            model_lit = [x for v in coq_eval(HEADER.replace("Model.Literal.", "Model.Literal Model.FloatFmt."), exprs) for x in v]
         except RuntimeError as ex:
             ck.coverage["model_eval_error_lit"] = str(ex)[-600:]
     impl_vals = []
@@ -307,14 +307,18 @@ def run():
                 ck.violation("number spelling %r should be the integer %d, lexes to %r" % (src, exp, iv), case)
             if tag == "real":
                 # the float the lexer produced must be the correctly rounded binary64 of the exact decimal value
-                ok = iv[0] == "Float" and ((iv[1] is None and inf_spelling(exp)) or (iv[1] is not None and not inf_spelling(exp) and Fraction(iv[1]) == Fraction(float(exp))))
+                ok = iv[0] == "Float" and iv[1] is not None and not inf_spelling(exp) and Fraction(iv[1]) == Fraction(float(exp))
                 if not ok:
                     ck.violation("number spelling %r should be the float %s, lexes to %r" % (src, exp, iv), case)
         if kind == "interval":
             n_, u_ = pv[1]
-            if iv != ("ValueAndUnit", {"n": n_, "unit": u_}):
-                ck.disagreement("interval literal %s denotes %d %s but lexes to %r" % (src, n_, u_, iv), dict(case, count=n_),
-                                lambda c_: "C08-N1-interval-count-overflow" if c_.get("count", 0) >= 2**63 else None)
+            # a count that does not fit i64 must be rejected (fix 8948ad3; C08-N1 is FIXED: nothing is excused)
+            if n_ >= 2**63:
+                ck.stat("literal-decode", "interval-rejected" if iv is None else "interval-overflow-accepted")
+                if iv is not None:
+                    ck.violation("interval literal %s has a count beyond i64 and must be rejected; it lexes to %r" % (src, iv), dict(case, count=n_))
+            elif iv != ("ValueAndUnit", {"n": n_, "unit": u_}):
+                ck.violation("interval literal %s denotes %d %s but lexes to %r" % (src, n_, u_, iv), dict(case, count=n_))
         if kind == "number:boundary":
             if iv is None:
                 ck.stat("literal-decode", "boundary-rejected")
@@ -324,6 +328,13 @@ def run():
                 ck.stat("literal-decode", "boundary-accepted")
                 if not ok:
                     ck.violation("based integer literal %s denotes %d but lexes to %r" % (src, v, iv), case)
+        elif iv is None and kind.startswith("number") and pv[0] == "real" and inf_spelling(pv[1]):
+            # since fix d8fda67 the lexer rejects a number whose binary64 value is not finite
+            ck.stat("literal-decode", "overflow-rejected")
+            if not any("number literal is out of range" in (e_.get("reason") or "") for e_ in a.get("err", [])):
+                ck.violation("number spelling %r overflows binary64: expected the lexer error 'number literal is out of range', got %r" % (src, a), case)
+        elif iv is None and kind == "interval" and pv[1][0] >= 2**63:
+            pass
         elif iv is None and pv is not None:
             ck.violation("literal spelling %r is not lexed as one literal token" % src, case)
         # Coq model vs implementation
@@ -390,7 +401,7 @@ def run():
             ex_idx.append(i)
     ex_ans = dict(zip(ex_idx, harness("exec", ex_reqs)))
 
-    OUT_OF_RANGE = "float literal is out of range"
+    OUT_OF_RANGE = "literal is out of range: its value is not a finite 64-bit float"     # the lexer's (d8fda67) or translate_literal's (1ae3488)
 
     def cl_e2e(case):
         return None               # F14 (overflow printed as inf) is FIXED by 1ae3488: nothing is excused any more
@@ -500,7 +511,7 @@ def run():
                 if ryu == "None":
                     ck.stat("float-text", "overflow")
                     reasons = [e_.get("reason") or "" for e_ in a.get("err", [])]
-                    if "ok" in a or not any("float literal is out of range" in r_ for r_ in reasons):
+                    if "ok" in a or not any(OUT_OF_RANGE in r_ for r_ in reasons):
                         ck.violation("float literal %s: the model says it overflows binary64 and is rejected, prqlc answers %r" % (src, a.get("ok") or reasons), {"kind": "float-text", "src": src, "model": None, "impl": a})
                     if txt != "None":
                         ck.violation("float literal %s: FloatFmt.overflows and FloatRyu.round64 disagree about overflow" % src, {"kind": "float-models", "src": src})
